@@ -963,6 +963,7 @@ impl ThetaSketch {
     /// Verification hook: offers an already computed 63-bit hash to the sketch, following
     /// the path `update` takes after hashing (screen against theta, then `try_insert`).
     pub fn verif_insert_hash(&mut self, hash: u64) {
+        self.table.verif_mark_offered();
         let hash = self.table.verif_screen(hash);
         if hash != 0 {
             self.table.try_insert(hash);
